@@ -127,6 +127,38 @@ def judge(kind, stream, logs, T, C, S, P):
     return bad
 
 
+RECONF = [(None, [], []), (1, [], []), (None, [4], []), (None, [], [0x40c]), (2, [3, 7], [0x40d]), (None, (1,), (0x140,)), (None, [0xff], [0x301])]
+
+
+def judge_reconfigure(stream, cfgs, first_traces):
+    """one PyKdebugParser object, its filters re-set between requests: every kevents() listing must equal the listing of a
+    fresh object with that configuration (a verdict cached from an earlier configuration must not survive)."""
+    blob, recs = container('v2', stream, ())
+    f = PyKdebugParser()
+    f.color = False
+    if first_traces:
+        f.filter_tid, f.filter_class, f.filter_subclass = cfgs[0]
+        list(f.traces(io.BytesIO(blob)))
+    for step, (T, C, S) in enumerate(cfgs):
+        f.filter_tid, f.filter_class, f.filter_subclass = T, C, S
+        try:
+            got = [obs_event(e) for e in f.kevents(io.BytesIO(blob))]
+        except Exception as ex:
+            return ('kevents-raised-after-reconfiguration:' + type(ex).__name__, {'step': step, 'error': repr(ex)[:200]})
+        exp = []
+        for r in recs:
+            d = ref_decode(r)
+            if T is not None and d[3] != T:
+                continue
+            if (len(C) or len(S)) and not ((d[5] >> 24) in list(C) or (d[5] >> 16) in list(S)):
+                continue
+            exp.append(d)
+        if got != exp:
+            return ('event-filter-depends-on-earlier-requests', {'step': step, 'got_n': len(got), 'exp_n': len(exp),
+                                                                'configs': repr(cfgs), 'traces_first': first_traces})
+    return None
+
+
 class C12(Check):
     pid = 'C12'
     level = 'model_checking'
@@ -135,7 +167,7 @@ class C12(Check):
             'records over 5 (tid,pid,process) shapes; x filter configurations: filter_tid in {None,0,1,2,9} x filter_class in '
             'all lists of <=2 over {1,3,4,7,0xff} (duplicates, tuple type) x filter_subclass in all lists of <=2 over '
             '{0x40c,0x40d,0x301,0x140} (v2: full product for the tid/class/subclass filters; v3: class/subclass reduced to 6x4, '
-            'process filter in {None,name,pid-string,other}). Oracle: listing == reference comprehension over the independent '
+            'process filter in {None,name,pid-string,other}). Plus request histories: all sequences of 3 filter configurations (7 kinds) applied in turn to ONE parser object, optionally after a traces() request, on 3 streams - each listing must equal the reference for its own configuration. Oracle: listing == reference comprehension over the independent '
             'decode; logs never among events and vice versa. non-trivial = the event filter removes at least one and keeps at least '
             'one record. states = distinct filter configurations; transitions = parses.')
     assumptions = ('configuration x history product is complete within the stated alphabets',)
@@ -152,9 +184,25 @@ class C12(Check):
         L3 = 1 if self.tier == 'quick' else 2
         streams3 = list(seqs(pool, L3))
         out += [('v3', ch) for ch in chunked(streams3, 32)]
+        out += [('reconf', i) for i in range(len(RECONF))]
         return out
 
+    def run_reconf(self, first, acc):
+        streams = [(0, 7, 9, 14, 16, 19), tuple(range(0, 21, 2)), (3, 3, 10, 17)]
+        for stream in streams:
+            for rest in itertools.product(range(len(RECONF)), repeat=2):
+                cfgs = [RECONF[first]] + [RECONF[i] for i in rest]
+                for first_traces in (False, True):
+                    bad = judge_reconfigure(stream, cfgs, first_traces)
+                    acc.case(nontrivial=True, transitions=len(cfgs) + first_traces, state=h64(repr(cfgs[-1])))
+                    if bad:
+                        acc.violation(bad[0], {'kind': 'reconf', 'stream': list(stream), 'cfgs': [[c[0], list(c[1]), list(c[2])] for c in cfgs],
+                                               'types': [[type(c[1]).__name__, type(c[2]).__name__] for c in cfgs],
+                                               'first_traces': first_traces}, bad[1])
+
     def run_shard(self, desc, acc):
+        if desc[0] == 'reconf':
+            return self.run_reconf(desc[1], acc)
         kind, streams = desc
         CL, SL = class_lists(), subclass_lists()
         if kind == 'v2':
@@ -190,6 +238,11 @@ class C12(Check):
             acc.sample(case)
 
     def replay(self, case):
+        if case['kind'] == 'reconf':
+            cfgs = [(c[0], tuple(c[1]) if t[0] == 'tuple' else list(c[1]), tuple(c[2]) if t[1] == 'tuple' else list(c[2]))
+                    for c, t in zip(case['cfgs'], case['types'])]
+            bad = judge_reconfigure(tuple(case['stream']), cfgs, case['first_traces'])
+            return [bad] if bad else []
         C = tuple(case['classes']) if case['classes_type'] == 'tuple' else list(case['classes'])
         S = tuple(case['subclasses']) if case['subclasses_type'] == 'tuple' else list(case['subclasses'])
         return judge(case['kind'], tuple(case['stream']), tuple(case['logs']), case['tid'], C, S, case['process'])
